@@ -15,17 +15,24 @@ def register(PROPS):
                  'BYMONTH=1,6;BYMONTHDAY=5 / BYMONTH=12;BYMONTHDAY=1,25 / BYMONTH=1,12;BYMONTHDAY=1,31 / BYDAY=1MO,20MO (YEARLY) and BYMONTHDAY=1,28 (MONTHLY), '
                  'each with INTERVAL 1 and 2, from 2020-01-01 - and judges every occurrence in 2023..2030 against the shifted images of the selected dates.  '
                  'Family mstart judges FREQ=MONTHLY;BYMONTHDAY=d;SHIFT=spec from DTSTART itself on (d in {1,2,15,28..31}, DTSTART 2020-01-01/02/15/31, every spec with |N| <= 70, to 2021-06-30): '
-                 'an image on or after DTSTART of a date in DTSTART\'s month or later must occur, nothing else may.',
+                 'an image on or after DTSTART of a date in DTSTART\'s month or later must occur, nothing else may.  '
+                 'Family setpos combines BYSETPOS with SHIFT: FREQ=MONTHLY with BYDAY=MO,TU,WE,TH,FR / BYMONTHDAY=1,2,3 / 28,29,30,31 / 1,15,31 / BYDAY=SA,SU and '
+                 'FREQ=YEARLY with BYDAY=MO,TU,WE,TH,FR (alone, with BYMONTH=1, with BYMONTH=12) / BYMONTH=1,12;BYMONTHDAY=1,31, each with BYSETPOS in {1, -1, 2, -2, "1,-1"} '
+                 'and every SHIFT spec with |N| <= 10 (thorough 20; days, B, and the six zero forms), DTSTART 2019-01-01, judged to the end of 2023 (thorough 2035): the date BYSETPOS '
+                 'selects in each period is computed independently (weekday / day-of-month arithmetic), every occurrence must be an image of a selected date, '
+                 'every selected date on or after DTSTART whose images lie in the window must occur, strictly increasing.',
         'note': 'Where README + property text are silent the oracle accepts every defensible reading (see assumptions), so it is lenient there; '
-                'combined specs (SHIFT=x,yB), FREQ=MONTHLY rules other than those of the multi family, timed DTSTARTs and other BY* parts together with SHIFT/BYEASTER are not in the grammar '
+                'combined specs (SHIFT=x,yB), FREQ=MONTHLY rules other than those of the multi, mstart and setpos families, timed DTSTARTs and other BY* parts together with SHIFT/BYEASTER are not in the grammar '
                 '(C16 covers their ordering and bounds).',
         'rule': 'easter: a case is one N (one stream, 199 year-offsets inside; evaluations count year-offsets); shift: a case is one (family, spec, month) '
                 'with one stream per day of the month inside (evaluations count streams).  Cases are distinct by construction; non-trivial = every easter '
                 'case, and every shift case whose spec is not the plain SHIFT=0 (which moves nothing); the sanitizer passes repeat cases and are not counted',
         'bound': {
             'quick': 'BYEASTER complete (733 N x 199 years); SHIFT for N in {-8..8, +-31, +-258..262, +-300, +-366} x {days, B, B+, B-} + -0B, -0B- '
-                     '(134 specs) x 366 rules x 3 families = 147 132 streams; plain family again under ASan',
-            'thorough': 'BYEASTER complete; SHIFT complete: 2934 specs x 366 rules x 3 families = 3 221 532 streams; quick set again under ASan',
+                     '(134 specs) x 366 rules x 3 families = 147 132 streams; plain family again under ASan; '
+                     'setpos: 9 rules x 5 BYSETPOS values x 46 specs (|N| <= 10) = 2070 streams to 2023, again under ASan',
+            'thorough': 'BYEASTER complete; SHIFT complete: 2934 specs x 366 rules x 3 families = 3 221 532 streams; quick set again under ASan; '
+                        'setpos: 9 rules x 5 BYSETPOS values x 86 specs (|N| <= 20) = 3870 streams to 2035',
         },
         'drivers': [
             D('c17_easter_shift', ['mode=long', 'nlist=quick', 'ymax=1945'], ['mode=long', 'nlist=all', 'ymax=1961'], label='shift-long'),
@@ -33,6 +40,8 @@ def register(PROPS):
             D('c17_easter_shift', ['mode=multi', 'nlist=quick', 'nocount=1', '--samples', '0'], label='shift-multi-asan', variant='asan', shards=4),
             D('c17_easter_shift', ['mode=mstart', '--sample-every', '37'], label='shift-monthly-from-dtstart'),
             D('c17_easter_shift', ['mode=mstart', 'nocount=1', '--samples', '0'], label='shift-monthly-from-dtstart-asan', variant='asan'),
+            D('c17_easter_shift', ['mode=setpos', 'nmax=10', 'ytill=2023', '--sample-every', '53'], ['mode=setpos', 'nmax=20', 'ytill=2035', '--sample-every', '97'], label='shift-setpos', shards=4),
+            D('c17_easter_shift', ['mode=setpos', 'nmax=10', 'ytill=2023', 'nocount=1', '--samples', '0'], label='shift-setpos-asan', variant='asan', shards=4),
             D('c17_easter_shift', ['mode=easter', '--sample-every', '61'], label='easter', shards=8),
             D('c17_easter_shift', ['mode=shift', 'fam=plain', 'nlist=quick', '--sample-every', '97'],
               ['mode=shift', 'fam=plain', 'nlist=all', '--sample-every', '1777'], label='shift-plain'),
@@ -55,6 +64,10 @@ def register(PROPS):
             'the B+/B- suffix is given no meaning for N != 0',
             'DTSTART, COUNT and UNTIL are applied to the shifted date.  A source date before DTSTART (behind UNTIL) whose shifted image lies inside is '
             'OPTIONAL: present or absent are both accepted, including the consequence for which 8 occurrences COUNT=8 keeps',
+            'setpos: BYSETPOS selects before SHIFT moves ("moves every selected date").  Where a shift does not keep the candidates of a period in strict order '
+            '(business-day shifts with weekend candidates, whose images coincide) selecting before or after the shift differ; in such a period every candidate is accepted and none is demanded.  '
+            'A selected date before DTSTART whose image lies on or after it may or may not occur.  Shifts of more than 20 (business) days are left out of this family: from the 31st they reach over '
+            'two month ends, where occurrences are lost at cache refills (the known monthly findings)',
             'occurrences are all-day (DTSTART;VALUE=DATE); an occurrence that is not a date of the calendar (month 13, 29 February of a common year) is a violation',
         ],
     }
